@@ -41,6 +41,7 @@ struct rt_unit {
         (void)solve(rhs, x);
         (void)solve(A, rhs, x);
         solve.apply(rhs, x);
+        solve.precond().rebuild(A);
         boost::property_tree::ptree out;
         solve.prm.get(out, "");
         (void)amgcl::backend::bytes(solve);
